@@ -112,7 +112,7 @@ func walk(v reflect.Value, path []string, out *[]string) {
 				if fv.Kind() == reflect.Ptr && fv.IsNil() {
 					continue
 				}
-				walk(fv, append(path[:len(path):len(path)], "(g "+quote(strings.TrimRight(strings.ToLower(f.Name), "_"))+")"), out)
+				walk(fv, append(path[:len(path):len(path)], "(g "+quote(strings.Trim(strings.ToLower(f.Name), "_"))+")"), out)
 				continue
 			}
 			name := f.Name
